@@ -482,8 +482,8 @@ class BaseCollection(BaseDisplayRepr):
         """
         # pylint: disable=protected-access
 
-        if arg is None:
-            arg = {}
+        # work on a copy, the dictionary of the caller must not collect the keyword arguments
+        arg = {} if arg is None else dict(arg)
         if kwargs:
             arg.update(kwargs)
         style_kwargs = arg
